@@ -118,8 +118,8 @@ pub fn get_positions_by_receiver(s: &Storage, receiver: &Str, open_state: Option
     ensures match r {
         Ok(v) => (forall|i: int| 0 <= i < v@.len() ==> is_position_of(*s, receiver@, open_state, (#[trigger] v@[i]).identifier@) && s.positions@[v@[i].identifier@] == v@[i])
             && (forall|i: int, j: int| 0 <= i < j < v@.len() ==> (#[trigger] v@[i]).identifier@ != (#[trigger] v@[j]).identifier@)
-            && (limit is Some ==> v@.len() <= limit->Some_0)
-            && (start_after is None && limit is Some && v@.len() < limit->Some_0 ==>
+            && v@.len() <= 10 && (limit is Some ==> v@.len() <= limit->Some_0)
+            && (start_after is None && v@.len() < 10 && (limit is Some ==> v@.len() < limit->Some_0) ==>
                 forall|id: Seq<char>| is_position_of(*s, receiver@, open_state, id) ==> exists|i: int| 0 <= i < v@.len() && (#[trigger] v@[i]).identifier@ == id),
         Err(_) => true,
     }
@@ -259,8 +259,8 @@ pub fn get_farms_by_lp_denom(s: &Storage, lp_denom: &Str, start_after: Option<St
         Ok(v) => v@ == farms_by_lp_spec(*s, lp_denom@, start_after, limit)
             && (forall|i: int| 0 <= i < v@.len() ==> is_farm_of(*s, lp_denom@, (#[trigger] v@[i]).identifier@) && s.farms@[v@[i].identifier@] == v@[i])
             && (forall|i: int, j: int| 0 <= i < j < v@.len() ==> (#[trigger] v@[i]).identifier@ != (#[trigger] v@[j]).identifier@)
-            && (limit is Some ==> v@.len() <= limit->Some_0)
-            && (start_after is None && limit is Some && v@.len() < limit->Some_0 ==>
+            && v@.len() <= 100 && (limit is Some ==> v@.len() <= limit->Some_0) && (limit is None ==> v@.len() <= 10)
+            && (start_after is None && limit is Some && v@.len() < limit->Some_0 && v@.len() < 100 ==>
                 forall|id: Seq<char>| is_farm_of(*s, lp_denom@, id) ==> exists|i: int| 0 <= i < v@.len() && (#[trigger] v@[i]).identifier@ == id),
         Err(_) => true,
     }
